@@ -94,6 +94,7 @@ func (processor *packetProcessor) Run(ctx context.Context) {
 							in.cb(in.publish)
 						}
 					}
+					verifPublishProcessed()
 				}
 			}
 		}(ctx)
@@ -115,6 +116,7 @@ func (processor *packetProcessor) publishHandler(ctx context.Context, sender str
 			publish: publish,
 			cb:      cb,
 		}:
+			verifPublishQueued()
 			return nil
 		case <-ctx.Done():
 			return ctx.Err()
